@@ -504,6 +504,8 @@ class Schema(dict, metaclass=LogicalMeta):
                 raise exc.DeleteError(
                     f"{self.__name__}: Attempt to delete required schema key: {repr(key)}"
                 )
+        for key, field in self.__parser__.fields.items():
+            self.__dict__.pop(field.attname, None)
         return super().clear()
 
 
